@@ -891,6 +891,13 @@ func verifyFunction(prog *ssa.Program, db *ContractDB, fn *ssa.Function, c *Cont
 				"a failed status of an executor callee leaves the function as failed", []string{"C05", "C07", "C20"})
 		}
 	}
+	if c != nil && c.PropagatesErrors && protocolKind(fn.Signature) == "" {
+		if n := fn.Signature.Results().Len(); n > 0 && n == len(rets) && isErrorType(fn.Signature.Results().At(n-1).Type()) {
+			pe := x.get(out, x.pendingErrKey())
+			x.obligation(out, "post", "error-propagated", mkImplies(mkNot(mkEq(pe, intLit(0))), mkEq(rets[n-1].(Term), pe)), token.NoPos,
+				"the first error a callee returns is the error the function returns", x.props)
+		}
+	}
 	// frame
 	x.frameObligations(fr, out, c, sch)
 	return res
